@@ -174,7 +174,7 @@ pub(crate) fn days_to_doy(days: i32) -> u32 {
 
 /// Converts days to day of week
 pub(crate) fn days_to_wday(days: i32, monday_first: bool) -> u32 {
-    (days.unsigned_abs() % 7 + if monday_first { 0 } else { 1 }) % 7
+    (days.rem_euclid(7) as u32 + if monday_first { 0 } else { 1 }) % 7
 }
 
 /// Get a list of specific weekdays in a month
@@ -208,12 +208,14 @@ pub(crate) fn weekdays_in_month(year: i32, month: u32, weekday: u8) -> Vec<u32> 
 /// Formula taken from https://tondering.dk/claus/cal/week.php#calcweekno
 pub(crate) fn days_to_wyear(days: i32) -> u32 {
     let (year, month, day) = days_to_date(days);
+    // The formula needs astronomical years (year 0 exists) and floored divisions
+    let year = if year < 0 { year + 1 } else { year };
     let month = month as i32;
     let day = day as i32;
 
     let a = if month <= 2 { year - 1 } else { year };
-    let b = a / 4 - a / 100 + a / 400;
-    let c = (a - 1) / 4 - (a - 1) / 100 + (a - 1) / 400;
+    let b = a.div_euclid(4) - a.div_euclid(100) + a.div_euclid(400);
+    let c = (a - 1).div_euclid(4) - (a - 1).div_euclid(100) + (a - 1).div_euclid(400);
     let s = b - c;
     let e = if month <= 2 { 0 } else { s + 1 };
     let f = if month <= 2 {
@@ -221,7 +223,7 @@ pub(crate) fn days_to_wyear(days: i32) -> u32 {
     } else {
         day + (153 * (month - 3) + 2) / 5 + 58 + s
     };
-    let g = (a + b) % 7;
+    let g = (a + b).rem_euclid(7);
     let d = (f + g - e) % 7;
     let n = f + 3 - d;
     match n {
